@@ -464,12 +464,23 @@ impl Sim {
         }
         if st.aborted.is_some() {
             drop(st);
-            std::panic::panic_any(SimAbort);
+            Self::unwind_aborted();
+            return;
         }
         Self::event(&mut st, me, kind, detail);
         let st = self.reschedule(st, me, kind == "op");
         if st.aborted.is_some() {
             drop(st);
+            Self::unwind_aborted();
+        }
+    }
+
+    /// Unwinds the calling thread out of an aborted run — unless it is
+    /// already unwinding (a `Drop` that takes a lock or passes a scheduling
+    /// point while the thread panics): a second panic would abort the
+    /// process, so such a thread simply runs on, outside the baton.
+    fn unwind_aborted() {
+        if !std::thread::panicking() {
             std::panic::panic_any(SimAbort);
         }
     }
@@ -623,7 +634,8 @@ impl Env for Sim {
         loop {
             if st.aborted.is_some() {
                 drop(st);
-                std::panic::panic_any(SimAbort);
+                Self::unwind_aborted();
+                return;
             }
             let ls = &st.locks[ord];
             let free = if exclusive {
@@ -644,7 +656,8 @@ impl Env for Sim {
                 Self::event(&mut st, me, "self-deadlock", ord as u64);
                 self.abort(&mut st, "self-deadlock");
                 drop(st);
-                std::panic::panic_any(SimAbort);
+                Self::unwind_aborted();
+                return;
             }
             st.status[me] = Status::Blocked(ord);
             st.stats.lock_contended += 1;
